@@ -41,7 +41,7 @@ func (u Union) generateUnmarshalBebop(w *iohelp.ErrorWriter, settings GenerateSe
 	writeLine(w, "\tif len(buf) < 4 {")
 	writeLine(w, "\t\treturn io.ErrUnexpectedEOF")
 	writeLine(w, "\t}")
-	writeLine(w, "\t_ = iohelp.ReadUint32Bytes(buf[at:])")
+	writeLine(w, "\tbodyLen := iohelp.ReadUint32Bytes(buf[at:])")
 	writeLine(w, "\tbuf = buf[4:]")
 	writeLine(w, "\tif len(buf) == 0 {")
 	writeLine(w, "\t\treturn iohelp.ErrUnpopulatedUnion")
@@ -57,6 +57,10 @@ func (u Union) generateUnmarshalBebop(w *iohelp.ErrorWriter, settings GenerateSe
 		writeLine(w, "\t\t\treturn nil")
 	}
 	writeLine(w, "\t\tdefault:")
+	// a member this version does not know is skipped unread, but it has to be there
+	writeLine(w, "\t\t\tif uint64(len(buf)) < uint64(bodyLen)+1 {")
+	writeLine(w, "\t\t\t\treturn io.ErrUnexpectedEOF")
+	writeLine(w, "\t\t\t}")
 	writeLine(w, "\t\t\treturn nil")
 	writeLine(w, "\t\t}")
 	writeLine(w, "\t}")
